@@ -449,7 +449,7 @@ def nonnull_names(repo, f):
     return out
 
 
-def _hoistable_calls(e):
+def _hoistable_calls(e, allow_top=False):
     """calls nested in expression e that are evaluated unconditionally exactly once (not under lambda, comprehension,
     conditional expression or a short-circuit operator's later operands)"""
     out = []
@@ -462,7 +462,7 @@ def _hoistable_calls(e):
         if isinstance(n, ast.BoolOp):
             go(n.values[0], False)
             return
-        if isinstance(n, ast.Call) and not top:
+        if isinstance(n, ast.Call) and (not top or allow_top):
             out.append(n)
         for c in ast.iter_child_nodes(n):
             go(c, False)
@@ -470,9 +470,9 @@ def _hoistable_calls(e):
     return out
 
 
-def _hoist(st, repo, f, new_funcs, resolve_helper, bind_args, caller_names, counter, report, q):
+def _hoist(st, repo, f, new_funcs, resolve_helper, bind_args, caller_names, counter, report, q, allow_top=False):
     """`x = g(h(a))` with h a new helper -> `t = h(a)` spliced, then `x = g(t)`"""
-    for call in _hoistable_calls(st.value):
+    for call in _hoistable_calls(st.value, allow_top):
         h, skip = resolve_helper(repo, f, call)
         if h is None or h.qname not in new_funcs or h.node is f.node or not splicable(h):
             continue
@@ -699,6 +699,18 @@ def inline_new_helpers(repo, new_funcs, resolve_helper, bind_args, max_rounds=2)
                                     report.setdefault(q, []).append(h.qname)
                                     changed = True
                                     continue
+                    # calls of new helpers in the iterable of a `for` / the test of an `if` are evaluated once, before the
+                    # statement: hoist them like calls nested in an assignment
+                    if isinstance(st, (ast.For, ast.If)):
+                        fld = "iter" if isinstance(st, ast.For) else "test"
+                        holder = ast.Expr(value=getattr(st, fld))
+                        hoisted = _hoist(holder, repo, f, new_funcs, resolve_helper, bind_args, caller_names, counter, report, q, allow_top=True)
+                        if hoisted is not None:
+                            setattr(st, fld, hoisted[-1].value)
+                            out += hoisted[:-1]
+                            out.append(st)
+                            changed = True
+                            continue
                     call, context, target = None, None, None
                     if isinstance(st, ast.Expr) and isinstance(st.value, ast.Call):
                         call, context = st.value, "expr"
